@@ -42,3 +42,25 @@ package common
 //@   loop 1 invariant forall k int :: 0 <= k && k <= rangeindex ==> lengths[k] == len(pieces[k])
 //@   loop 2 invariant 0 <= start && start <= len(joined) && len(result) <= rangeindex + 1
 //@   loop 2 invariant forall k int :: 0 <= k && k < len(lengths) ==> 0 <= lengths[k] && lengths[k] <= 4611686018427387904
+// -- added by the C14 audit: what TruncateStop returns when the stop IS present. --
+// From the property ("the output ends immediately before one [stop]"): the text that is split
+// back into pieces is exactly the joined text before the first occurrence of the stop (not one
+// byte more); the k-th returned piece continues where piece k-1 ended (ghost_cov = bytes handed
+// out so far), so the returned pieces, concatenated, are joined[0:ghost_cov]; no piece begins at
+// or behind the cut; on return everything before the cut has been handed out unless every
+// original piece was used. tokenTruncated (processBatch's cache-trim arithmetic depends on it,
+// C07) is true exactly when the last returned piece is shorter than the piece it came from;
+// all earlier pieces keep their length.
+//@   ghost-at entry : ghost_cov := 0
+//@   ghost-at call append #1 : ghost_cov := ghost_cov + len(arg1[0])      -- runs after the assert-at clauses of the same site
+//@   loop 2 invariant cap(result) == 0 || fresh(&result[0])      -- result's array is allocated here, it never aliases pieces
+//@   loop 2 invariant forall k int :: 0 <= k && k < len(pieces) ==> pieces[k] == old(pieces[k]) && lengths[k] == len(pieces[k])
+//@   loop 2 invariant ghost_cov == start && len(result) == rangeindex + 1
+//@   loop 2 invariant tokenTruncated ==> start == len(joined) && rangeindex >= 0 && len(result[rangeindex]) < lengths[rangeindex]
+//@   loop 2 invariant forall k int :: 0 <= k && k <= rangeindex && (k < rangeindex || !tokenTruncated) ==> len(result[k]) == lengths[k]
+//@   assert-at call append #1 : len(joined) == old(sindex(sjoin(pieces, ""), stop)) && joined == old(sjoin(pieces, ""))[0:len(joined)]
+//@   assert-at call append #1 : ghost_cov < len(joined) && arg1[0] == joined[ghost_cov:ghost_cov+len(arg1[0])] && ghost_cov + len(arg1[0]) <= len(joined)
+//@   assert-at return #2 : ghost_cov == len(joined) || len(result.0) == len(pieces)
+//@   ensures result.1 <==> len(result.0) >= 1 && len(result.0[len(result.0)-1]) < len(pieces[len(result.0)-1])
+//@   ensures forall k int :: 0 <= k && k < len(result.0) - 1 ==> len(result.0[k]) == len(pieces[k])
+//@   ensures forall k int :: 0 <= k && k < len(result.0) ==> len(result.0[k]) <= len(pieces[k])
